@@ -271,6 +271,9 @@ func TestVerif_C19_Blip(t *testing.T) {
 			}
 			// REST reads of what BLIP wrote
 			c.readAll(current, []*vfC19Rev{current}, old)
+			if c.skippedChanges {
+				classes = append(classes, "changes-read-skipped(out-of-float-range literal)")
+			}
 		})
 		rec.Case(strings.Join(sigParts, " | "), nontrivial, classes...)
 	})
@@ -330,7 +333,10 @@ func TestVerif_C19_ISGR(t *testing.T) {
 			for i := 0; i < n; i++ {
 				docID := active.newDocID(rt)
 				w := rapid.SampledFrom([]string{"PUT", "bulk", "import", "bulk-noedits"}).Draw(rt, "w")
-				body := vfC19GenBody(rt, vfC19GenCfg{MaxDepth: 6})
+				// no literal outside the float64 range here: the test store's view engine cannot index
+				// such a document, so a replication whose changes feed starts from the channel query
+				// (since=0) never sees it — a property of the test store, not of body fidelity
+				body := vfC19GenBody(rt, vfC19GenCfg{MaxDepth: 6, NoHugeFloat: true})
 				st := vfC19GenStyle(rt)
 				if vfC19BlankObjectShape(w, body, st) && knownBlank {
 					rec.Excluded(vfC19SigBlankObject)
@@ -350,11 +356,15 @@ func TestVerif_C19_ISGR(t *testing.T) {
 				sigParts = append(sigParts, fmt.Sprintf("%s esc=%v %s", w, esc, vfC19Canon(body)))
 				items = append(items, item{docID, r})
 			}
-			// the one-shot run replicates what the active gateway's change cache holds: wait (with the
-			// product's request_plus) until the last write is on the feed, reading it on the way
-			last := items[len(items)-1]
-			c.docID = last.id
-			c.changes(last.rev)
+			// the one-shot run replicates what the active gateway's change cache holds: write a plain
+			// barrier document last and wait until it is on the feed
+			barrierID := active.newDocID(rt)
+			bres, _, _ := active.write("PUT", barrierID, vfC19Obj().Set("barrier", vfC19Num(strconv.Itoa(round))), &vfC19Style{Compact: true}, "", "", nil, &ops)
+			if bres.Code != 201 {
+				c.fail("PUT of the barrier document was not accepted: %d %s", bres.Code, vfC19Clip(bres.Reason))
+			}
+			c.docID = barrierID
+			c.changes(&vfC19Rev{RevID: bres.RevID, Body: vfC19Obj().Set("barrier", vfC19Num(strconv.Itoa(round))), Path: "PUT", Text: "(barrier)"})
 			// one-shot push replication, created and watched over the admin REST API
 			replID := fmt.Sprintf("c19-%d", round)
 			cfg := vfC19Obj().Set("replication_id", vfC19Str(replID)).Set("direction", vfC19Str("push")).Set("remote", vfC19Str(peers.PassiveDBURL)).
